@@ -106,6 +106,13 @@ def gen_scripts(family, tier, wd, seed):
 
 
 REGRESSIONS = [
+    # renames of entities addressed by their (old) NAME, over every transport that carries catalogue scenarios
+    *[(f'rename-by-name-{tr}', tr, [dict(op='create_stream', id=0, name='sa'),
+                                    dict(op='create_topic', s=dict(by='id', v=1), id=0, name='ta', parts=1),
+                                    dict(op='update_topic', s=dict(by='name', v='sa'), t=dict(by='name', v='ta'), name='tb'),
+                                    dict(op='update_stream', s=dict(by='name', v='sa'), name='sb'),
+                                    dict(op='update_topic', s=dict(by='name', v='sb'), t=dict(by='name', v='tb'), name='ta'),
+                                    dict(op='restart'), dict(op='restart')]) for tr in ('tcp', 'http', 'quic')],
     ('D7-auto-explicit-auto', 'tcp', [dict(op='create_stream', id=0, name='sa'), dict(op='create_stream', id=2, name='sb'),
                                       dict(op='create_stream', id=0, name='sc'), dict(op='restart'), dict(op='create_stream', id=0, name='sd'), dict(op='restart')]),
     ('D7-auto-explicit-auto-http', 'http', [dict(op='create_stream', id=0, name='sa'), dict(op='create_stream', id=2, name='sb'),
